@@ -330,7 +330,12 @@ func (vr *variableResolver) resolve(ctx *ExecutionContext) (*Value, error) {
 							return AsValue(nil), nil
 						}
 					case reflect.Map:
-						current = current.MapIndex(reflect.ValueOf(part.s))
+						key := reflect.ValueOf(part.s)
+						if !key.Type().AssignableTo(current.Type().Key()) {
+							// e. g. a map[int]string can't have the key "name"
+							return AsValue(nil), nil
+						}
+						current = current.MapIndex(key)
 					default:
 						return nil, fmt.Errorf("can't access a field by name on type %s (variable %s)",
 							current.Kind().String(), vr.String())
